@@ -276,8 +276,11 @@ def run(chk, repo):
            f"{want} residues: for an ORF running to the transcript end the header end coordinate differs from start + 3 * len(sequence) "
            "(frames 1 and 2 have fewer codons than len(tx) // 3 whenever len(tx) % 3 < frame)", key=f"{ORFS}::no-stop-length", fn=go.qual)
     # header coordinates: the two integers of the `<start>-<end>` field of the ORF name
+    from sa import sem as _sem8
     hdr = [v for n in ast.walk(lp[0]) if isinstance(n, ast.JoinedStr) for v in [n.values]
            if sum(isinstance(x, ast.FormattedValue) for x in v) >= 2]
+    hdr += [j.values for n in ast.walk(lp[0]) if isinstance(n, ast.Call) for j in [_sem8.format_call_to_fstring(n)] if j is not None
+            and sum(isinstance(x, ast.FormattedValue) for x in j.values) >= 2]
     oe = os_ = None
     for vals in hdr:
         for i in range(len(vals) - 2):
@@ -381,12 +384,15 @@ def orf_end_candidates(chk, repo, go, loop) -> bool:
             return cands(x.body) + cands(x.orelse)
         return [x]
     cs = cands(e)
+    if len(cs) < 2 and isinstance(sl.slice.upper, ast.Name):
+        # the bound is a name assigned more than once in the loop (`b = <lookup>` ... `if b == -1: b = <fall-back>`): every value it is given
+        cs = [c for a_ in ast.walk(loop) if isinstance(a_, ast.Assign) and len(a_.targets) == 1 and unparse(a_.targets[0]) == sl.slice.upper.id for c in cands(a_.value)]
     if len(cs) < 2:
         return False
     bad = []
     for c in cs:
-        if isinstance(c, ast.Subscript):
-            continue          # an element of a position table
+        if isinstance(c, ast.Subscript) or (isinstance(c, ast.Call) and call_name(c) in ('find', 'index') and c.args and isinstance(c.args[0], ast.Constant) and c.args[0].value == '*'):
+            continue          # a looked-up stop position
         c2 = unparse(sem.expand_names(go.node, st, c, chains=ch, depth=3))
         if c2 not in (f"len({base}.seq)", f"len({base})"):
             bad.append(c2)
